@@ -400,8 +400,13 @@ impl Report {
             let path = dir.join(name);
             // candidates: the minimised plan, then the whole run re-executed from (seed, run)
             let rerun = json!({"kind": "rerun", "tier": self.tier.name()});
-            let mut candidates = vec![v.replay.clone()];
-            if v.replay.get("kind").and_then(|k| k.as_str()) != Some("rerun") && v.run < (1 << 40) {
+            // a plan may carry its own fallback (e.g. deep runs: re-execute the run by index in the instrumented build)
+            let mut primary = v.replay.clone();
+            let own_fallback = primary.as_object_mut().and_then(|m| m.remove("fallback"));
+            let mut candidates = vec![primary];
+            if let Some(fb) = own_fallback {
+                candidates.push(fb);
+            } else if v.replay.get("kind").and_then(|k| k.as_str()) != Some("rerun") && v.run < (1 << 40) {
                 candidates.push(rerun);
             } else if v.replay.get("kind").and_then(|k| k.as_str()) == Some("rerun") {
                 candidates = vec![rerun];
